@@ -167,8 +167,12 @@ def _execute(res, prog, p, faults, extractor, fail_save, rate, enabled, kind, ig
     _sys.setrecursionlimit(limit0 + 137)
     try:
         res.process_state_before = process_state()
+        reg = {}
+        once_per_location_warning(reg)            # the service has emitted this warning before: shown once, suppressed from then on
         res.outcome = in_caller_context(caller_context, lambda: res.live.run('live'))
         res.process_state_after = process_state()
+        res.process_state_before['once-per-location warnings stay suppressed'] = True
+        res.process_state_after['once-per-location warnings stay suppressed'] = not once_per_location_warning(reg)
     finally:
         _sys.setrecursionlimit(limit0)
     res.global_random_after = _random.random()
@@ -184,6 +188,22 @@ def _execute(res, prog, p, faults, extractor, fail_save, rate, enabled, kind, ig
         res.twin_outcome = in_caller_context(caller_context, lambda: res.twin.run('live'))
         res.twin_global_random_after = _random.random()      # the twin is called from the same context
     return res
+
+
+def once_per_location_warning(registry):
+    """Emits the service's 'shown once per location' warning with its own registry; -> True when it was delivered (not suppressed).
+    (Whoever modifies the process's warning filters invalidates every registry: suppressed warnings are delivered again.)"""
+    import warnings
+    shown = []
+    old = warnings.showwarning
+    warnings.showwarning = lambda *a, **k: shown.append(1)
+    try:
+        warnings.warn_explicit('the service warns here once per location', UserWarning, 'service_module.py', 12, module='service_module', registry=registry)
+    except UserWarning:
+        shown.append(1)            # (warnings configured as errors: counts as delivered)
+    finally:
+        warnings.showwarning = old
+    return bool(shown)
 
 
 def process_state():
